@@ -515,6 +515,8 @@ def form_to_coq(f):
         if None in body or any(e is None for _, e in bs):
             return None
         return "(FLet [%s] [%s])" % ("; ".join("(%s, %s)" % (qn(x), e) for x, e in bs), "; ".join(body))
+    if k in ("fn", "defn") and any(not isinstance(p, str) for p in (f[1] if k == "fn" else f[2])):
+        return None      # parameter defaults are compiled in the enclosing scope: outside the walk model
     if k == "fn":
         body = [form_to_coq(x) for x in f[2]]
         return None if None in body else "(FFn [%s] [%s])" % ("; ".join(qn(p) for p in f[1]), "; ".join(body))
